@@ -360,6 +360,13 @@ def dupHandle (s : State) (h : Nat) : State × Res :=
           ({ s1 with handles := s1.handles ++ [some c'] }, .ok)
   | _ => (s, .illegal)
 
+/-- `UnixFd::dup(&self)` while the process cannot get another descriptor (the `dup` system call fails with EMFILE /
+    ENFILE): `Err(DupError::Io)` (or `AlreadyTaken`, if it was), nothing changes -/
+def dupHandleFail (s : State) (h : Nat) : State × Res :=
+  match s.handles[h]? with
+  | some (some _) => (s, .err)
+  | _ => (s, .illegal)
+
 /-- `UnixFd::clone(&self)` -/
 def cloneHandle (s : State) (h : Nat) : State × Res :=
   match s.handles[h]? with
@@ -420,6 +427,7 @@ inductive Op
   | take (h : Nat)
   | get (h : Nat)
   | dupHandle (h : Nat)
+  | dupHandleFail (h : Nat)
   | cloneHandle (h : Nat)
   | dropHandle (h : Nat)
   deriving Repr
@@ -439,6 +447,7 @@ def step (s : State) : Op → State × Res
   | .take h => take s h
   | .get h => get s h
   | .dupHandle h => dupHandle s h
+  | .dupHandleFail h => dupHandleFail s h
   | .cloneHandle h => cloneHandle s h
   | .dropHandle h => dropHandle s h
 
